@@ -72,12 +72,12 @@ def gen_cases(tier, seed):
     # ---- flip / circshift
     shp = space.shapes((1, 2, 3), (1, 2, 3, 4, 5), 24)
     for s in shp:
-        for ax in space.axes_subsets(len(s)):
+        for ax in space.axes_subsets(len(s), nonempty=False):   # including the empty selection: nothing is reversed
             cases.append(dict(kind="flip", shape=list(s), axes=None if ax is None else list(ax)))
     sh_alpha = (-2, -1, 0, 1, 5)
     for s in space.shapes((1, 2, 3), (1, 2, 3, 4), 24 if T else 16):
         nd = len(s)
-        for ax in space.axes_subsets(nd, ordered=True):
+        for ax in space.axes_subsets(nd, ordered=True, nonempty=False):
             k = nd if ax is None else len(ax)
             if k == 3 and not T:
                 shifts_iter = [(1, -2, 5), (0, 1, -1), (5, 0, -2)]
@@ -193,7 +193,7 @@ def run_case(case, seed):
     elif k == "flip":
         s, ax = case["shape"], case["axes"]
         src = im.flip_src(s, ax)
-        when = "axes=None" if ax is None else ("negative axes" if any(a < 0 for a in ax) else "non-negative axes")
+        when = "axes=None" if ax is None else ("empty axes" if not ax else ("negative axes" if any(a < 0 for a in ax) else "non-negative axes"))
         x = labelled(s)
         ref = im.apply_src(src, x)
         _cmp(viol, "util.flip", when, sp.flip(x, ax), ref)
@@ -206,7 +206,7 @@ def run_case(case, seed):
     elif k == "circshift":
         s, ax, sh = case["shape"], case["axes"], case["shifts"]
         src = im.circshift_src(s, sh, ax)
-        when = "axes=None" if ax is None else ("negative axes" if any(a < 0 for a in ax) else "non-negative axes")
+        when = "axes=None" if ax is None else ("empty axes" if not ax else ("negative axes" if any(a < 0 for a in ax) else "non-negative axes"))
         x = labelled(s)
         ref = im.apply_src(src, x)
         _cmp(viol, "util.circshift", when, sp.circshift(x, sh, ax), ref)
